@@ -1293,3 +1293,5 @@ def run(res, facts, tier):
     _run_c02_29(res, facts, tier)
     from . import c02_expr
     c02_expr.run_rule(res, facts, tier)
+    from . import c02_nsaxis
+    c02_nsaxis.run_rule(res, facts, tier)
